@@ -19,7 +19,7 @@ struct L10 : Listener {
         ++refused;
         Snap post = takeSnap(in.o());
         std::string d = diffIdentical(pre, post);
-        if (!d.empty()) { r.fail("op " + std::to_string(i) + " (" + op.code + " " + o.note + ") threw " + o.cls + " but the object changed: " + d); stop = true; return; }
+        if (!d.empty()) { r.fail("op " + std::to_string(i) + " (" + op.code + " " + o.note + ") threw " + o.cls + " but the object changed: " + d); if (op.code == "mandparam") r.knownFinding = "KF-MANDTYPE"; if (op.code == "paramx" && in.analogGroupEmpty) r.knownFinding = "KF-EMPTYANALOG"; stop = true; return; }
         SnapFacts f = factsOf(pre);
         if (f.frames >= 1 && f.customGroups >= 1) ++refusedRich;
         if (o.note == "exists1" || o.note == "ragged" || o.note == "altname" || (op.code == "param" && o.cls == "runtime_error")) ++partly;
